@@ -28,7 +28,7 @@ var hostileTemplates = []string{
 	"ceil({v})", "floor({v})", "round({v})", "abs({v})", "toInt({v})", "toFloat({v})", "toStr({v})", "toBool({v})", "repr({v})", "load({v})", "loadRaw({v})", "store({v},{v})", "typeId({v})", "dir({v})",
 	"[{v}..{v}]", "[{v},{v},{v}]", "{{v}:{v}}", "{'k':{v}, 'k2':{v}}", "`a{{v}}b{% {v} %}`", "x = {v}", "&x = {v}; x", "&x = {v}; &x.k = {v}; x.k", "this.y = {v}", "x={v}; y=x; y",
 	"func g(n) { {v} }; g({v})", "func g() { return {v} }; g()", "func g(n){ g(n+1) }; g(0)", "&a = a + 1; a", "&a = b; &b = a; a", "func g(n) { if n { g(n-1) } }; g({v})",
-	"x='aaaaaaaa'; i=0; while i<{n} { x=x+x; i=i+1 }", "x=[1]; i=0; while i<{n} { x=x+x; i=i+1 }", "x=[1]; i=0; while i<{m} { x=[x,x]; i=i+1 }; x", "x=[1,2]; i=0; while i<{m} { x=[x,x]; i=i+1 }; &a = x; a", "x={'k':1}; i=0; while i<{m} { x={'a':x,'b':x}; i=i+1 }; toStr(x)", "x=[1]; i=0; while i<{m} { x=[x,x]; i=i+1 }; `{x}`", "x=[1]; i=0; while i<{n} { x.push(i); i=i+1 }; x.len()",
+	"x='aaaaaaaa'; i=0; while i<{n} { x=x+x; i=i+1 }", "x=[1]; i=0; while i<{n} { x=x+x; i=i+1 }", "x=[1]; i=0; while i<{m} { x=[x,x]; i=i+1 }; x", "x=[1,2]; i=0; while i<{m} { x=[x,x]; i=i+1 }; &a = x; a", "x=[{'k':1}]; i=0; while i<{m} { x=[{'a':x},x]; i=i+1 }; toStr(x)", "x=[1]; i=0; while i<{m} { x=[x,x]; i=i+1 }; `{x}`", "x=[1]; i=0; while i<{n} { x.push(i); i=i+1 }; x.len()",
 	"x=[]; x.push(x); x", "x={}; x.a=x; x", "x=[1]; x[0]=x; toStr(x)",
 	"x=[1]; y=[1]; x[0]=y; y[0]=x; x==y", "x={}; y={}; x.a=y; y.a=x; x=={v}", "x=[1]; x[0]=x; x==x", "x=[1]; x[0]=x; [x]==[[x]]",
 	"x=[1,2]; i=0; while i<{n} { x[0:0]=x; i=i+1 }; x.len()", "x=[1,2]; i=0; while i<{n} { x[1:]=x; i=i+1 }", "x=[1]; i=0; while i<{n} { x[0:1]=[x,x]; i=i+1 }",
